@@ -136,3 +136,34 @@ Fixpoint concat_locate (ns : list Z) (x : Z) : nat * Z :=
   | n :: r => if x <? n then (O, x)
               else (S (fst (concat_locate r (x - n))), snd (concat_locate r (x - n)))
   end.
+
+(* ------------------------------------------------------------------ reshape / vectors *)
+(* number of arrays and scalars of a type in flattened form *)
+Fixpoint leaf_count (t : ty) : nat :=
+  match t with
+  | TScalar _ | TArray _ _ => 1%nat
+  | TVector n t1 => (Z.to_nat n * leaf_count t1)%nat
+  | TTuple ts => list_sum (map leaf_count ts)
+  | TNamed fs => list_sum (map (fun p => leaf_count (snd p)) fs)
+  end.
+(* a value has the tree structure of a type (element counts and ranges are has_type's business) *)
+Inductive shaped : value -> ty -> Prop :=
+| shaped_scalar es s : shaped (VArr es) (TScalar s)
+| shaped_array es sh s : shaped (VArr es) (TArray sh s)
+| shaped_vector vs n t : length vs = Z.to_nat n -> Forall (fun v => shaped v t) vs -> shaped (VTup vs) (TVector n t)
+| shaped_tuple vs ts : Forall2 shaped vs ts -> shaped (VTup vs) (TTuple ts)
+| shaped_named vs fs : Forall2 shaped vs (map snd fs) -> shaped (VTup vs) (TNamed fs).
+Definition is_leaf_value (v : value) : Prop := match v with VArr _ => True | VTup _ => False end.
+
+(* ------------------------------------------------------------------ segment cumulative sum *)
+(* graphs.rs:2428: output[0] = v, output[i] = A[i-1] + B[i-1] * output[i-1] *)
+Fixpoint seg_cumsum_at (a b : Z -> Z) (v : Z) (i : nat) : Z :=
+  match i with
+  | O => v
+  | S k => a (Z.of_nat k) + b (Z.of_nat k) * seg_cumsum_at a b v k
+  end.
+
+(* ------------------------------------------------------------------ A2B / B2A on arrays *)
+(* bit j of x, and the integer with little-endian bits b 0 .. b (w-1) *)
+Definition bit_of (x j : Z) : Z := (x / 2 ^ j) mod 2.
+Definition bits_value (b : Z -> Z) (w : Z) : Z := zsum (fun j => b j * 2 ^ j) w.
